@@ -121,7 +121,8 @@ def check(run):
     # evaluated in the two abstract states after the departure: packets remain -> every path restarts the sender;
     # queue drained -> the sender is not restarted
     def qstate(nonempty):
-        return lambda atom: {'m_queue.empty()': not nonempty, 'm_queue.size()': nonempty, '(m_queue.size() > 0)': nonempty, '(m_queue.size() != 0)': nonempty, '(m_queue.size() == 0)': not nonempty}.get(q.render(ns, q.strip_casts(atom))) \
+        # (the queue is alive: a liveness token that reports it destroyed ends the function, there is nothing left to restart)
+        return lambda atom: False if (q.render(ns, q.strip_casts(atom)).endswith('.expired()') and 'weak_ptr' in ns.ty(q.strip_casts(q.strip_casts(atom).get('obj')).get('t', -1)) if is_node(q.strip_casts(atom).get('obj')) and 't' in q.strip_casts(q.strip_casts(atom).get('obj')) else False) else {'m_queue.empty()': not nonempty, 'm_queue.size()': nonempty, '(m_queue.size() > 0)': nonempty, '(m_queue.size() != 0)': nonempty, '(m_queue.size() == 0)': not nonempty}.get(q.render(ns, q.strip_casts(atom))) \
             if q.strip_casts(atom)['k'] not in ('un',) and not (q.strip_casts(atom)['k'] == 'bin' and q.strip_casts(atom)['op'] in ('&&', '||')) else None
     okc = bool(cont) and bool(er) and not q.exit_reachable_under(ns, er[0], cont, qstate(True)) and not q.reachable_under(ns, er[0], cont, qstate(False))
     run.check(okc, 'R10', 'queue-sender-continue', ns.norm, ns.loc(), 'after a departure the sender is not restarted exactly when packets remain (early return or extra condition)', 'continues iff the queue is non-empty')
@@ -576,6 +577,26 @@ def reentrancy_rule(run):
         run.check(not stale, 'R16', 'resume-reads-queue-after-handover', Q + '::next_packet_sent', ns.loc(stale[0][1]) if stale else ns.loc(s_),
                   'the decision to start the next departure after forward_packet() is taken from `%s`, a reading of the queue made BEFORE the packet was handed on: a packet that the next hop sent back through this queue during the hand-over (a hop shared by both directions: SYN+ACK, ACK) was enqueued while the forwarding flag was up and is now never started - the queue holds a packet and is idle for good' % (stale[0][0] if stale else ''),
                   'the backlog is read after the hand-over')
+    # the packet handed on may hold the last reference to this queue (a queue is owned only by the routes and packets that
+    # name it): whatever next_packet_sent() touches of the queue after forward_packet() is guarded by a liveness token taken
+    # before the call
+    after = []
+    for a in q.field_accesses(ns):
+        if not a.field.startswith(Q + '::') or not is_node(a.node):
+            continue
+        if any(q.precedes(ns, f_, a.node) and not q.precedes(ns, a.node, f_) for f_ in fwd):
+            after.append(a)
+    tokens = {v['did']: v.get('name') for nd in ns.all_nodes() if nd['k'] == 'decl' for v in nd['vars'] if 't' in v and 'weak_ptr' in ns.ty(v['t']) and v.get('init') is not None and 'm_alive' in q.render(ns, v['init']) and all(q.precedes(ns, nd, f_) for f_ in fwd)}
+    def live_guarded(n):
+        for a_, p_ in q.guards_at(ns, n):
+            for x in walk(a_):
+                if x['k'] == 'call' and (q.callee_name(x) or '').endswith('weak_ptr::expired') and is_node(x.get('obj')) and q.strip_casts(x['obj']).get('did') in tokens and not p_:
+                    return True
+        return False
+    bad_after = [a for a in after if not live_guarded(a.node)]
+    run.check(not bad_after, 'R16', 'queue-survives-handover', Q + '::next_packet_sent', ns.loc(bad_after[0].node) if bad_after else ns.loc(),
+              'next_packet_sent() touches %s after forward_packet() without a liveness test: the packet it handed on can hold the last reference to this queue (a link queue built per connection: the EOF it delivers makes the receiver drop the channel, and with it the route that owns the queue) - the queue is destroyed inside the call and the member access is a use-after-free'
+              % (bad_after[0].field.split('::')[-1] if bad_after else ''), 'every member access after the hand-over is dominated by !alive.expired() for a token taken before it')
     run.check(ok, 'R16', 'hop-reentrancy', Q + '::next_packet_sent', ns.loc(late[0]) if late else ns.loc(),
               'next_packet_sent() starts the next departure after forward_packet(): when forwarding re-enters incoming_packet() of this queue (a hop shared by both directions) the sender has already been started for the new packet and is started again - the timer is armed twice, one packet is taken twice (front() of an empty deque) or the two completions cancel each other forever',
               how)
